@@ -54,4 +54,24 @@ CHECKS = {
         "level_text": "Seeded exploration of histories x configurations x restart placements, each restart judged exactly against the live census and a reference map.",
         "level_note": "trusted base: reference map semantics, census through the public read API",
     },
+    "C13": {
+        "level": "fault_enumeration",
+        "design_ref": "DESIGN.md section 5/C13",
+        "engine": "E1 simlibc",
+        "technique": "deterministic simulation: single-fault enumeration (bit flips at structural offsets, truncations at frame boundaries, deletions) over data directories of seeded histories, real strict recover() as oracle input",
+        "rule": "data directories come from seeded histories (4-22 ops quick, 4-40 thorough; several snapshots, rotated and compacted segments, restarts), cleanly "
+                "stopped; for every file the structural damage catalogue is enumerated completely (WAL: magic, each frame's length/payload/CRC/doc-id bytes, truncation at "
+                "every frame boundary +-1 of non-newest segments; snapshot: magic, size, version, counts, dimension, distance, last_wal_seq, CRC, truncations; MANIFEST: "
+                "structural characters, truncations; plus 3 PRNG flips per file and deletion). evaluations = damaged directories on which the real strict recovery ran. "
+                "distinct_nontrivial = distinct (directory digest x file role x structural field) combinations.",
+        "assumptions": [
+            "truncation of the newest log segment is excluded (crash case of C01)",
+            "a start-up that errors, panics or aborts the process (absurd allocation; run in a forked child) counts as refused",
+            "server row (MANIFEST missing => fresh start) is not covered by this engine-level check",
+        ],
+        "expected_probes": ["directories_with_several_snapshots", "directories_with_several_segments"],
+        "tiers": {"quick": {"runs_per_worker": 100000, "budget_s": 40}, "thorough": {"runs_per_worker": 1000000, "budget_s": 600}},
+        "level_text": "Every single fault of a structural catalogue is enumerated on each sampled data directory and the real strict recovery is run on the damaged copy; the engine's own readers are then queried to name the mechanism.",
+        "level_note": "trusted base: catalogue completeness for the on-disk formats (parsed by the harness), the reference map; histories sampled, faults enumerated per directory",
+    },
 }
